@@ -20,17 +20,19 @@ TECHNIQUE = 'runtime monitor: exactly-once / thread-affinity history checker at 
 RULE = ('task histories: 0-40 tasks, each ok / failing (Exception or BaseException) / slow (<0.05 s) / gated until '
         'flush has begun, flush from the submitting or another thread, submissions after flush; push histories: 1-25 '
         'snapshots handed over from 1-4 application threads to the real PushService over a fake channel with a seeded '
-        'subset of unconvertible snapshots and failing sends; LINE-event yields in deep/task and deep/push; '
+        'subset of unconvertible snapshots and failing sends; two task handlers active in one process; a backlog of '
+        'more than ten seconds made of 3 s tasks; LINE-event yields in deep/task and deep/push; '
         'non-trivial = at least one task failed or was still running when flush started; distinct by canonical history')
 ASSUMPTIONS = ['tasks are shorter than flush\'s own 10 s per-task wait', 'a refused post-close submission may raise any exception type']
 REQUIRE = {'tasks_tracked': 2000, 'flushes_checked': 300, 'flush_with_running_failure': 80, 'sends_checked': 1500,
            'failed_sends': 100, 'unconvertible': 100, 'post_close_submits': 200, 'yield_points': 2000,
-           'submits_during_flush': 30}
+           'submits_during_flush': 30, 'twin_handler_flushes': 40, 'backlog_flushes': 1}
 
 
 def plan(tier, seed):
     n = {'quick': 1, 'thorough': 15}[tier]
-    return split_seeds('t%s' % seed, 400 * n, 8, 'tasks') + split_seeds('p%s' % seed, 320 * n, 8, 'push')
+    return (split_seeds('t%s' % seed, 400 * n, 8, 'tasks') + split_seeds('p%s' % seed, 320 * n, 8, 'push') +
+            split_seeds('w%s' % seed, 40 * n, 2, 'twin') + split_seeds('b%s' % seed, 1 if tier == 'quick' else 3, 3, 'backlog'))
 
 
 class BaseBoom(BaseException):
@@ -224,6 +226,104 @@ def case_tasks(seed, out, spec):
                      repr(result['raised']), 'post_close': late, 'line_events_with_yields': events})
 
 
+def case_twin(seed, out, spec):
+    """Two task handlers live in one process (two agents, or one that was started again): each flush drains exactly
+    its own handler's tasks, whatever the other one is doing."""
+    from deep.task import TaskHandler
+    r = Rng('c09w', seed)
+    a, b = TaskHandler(), TaskHandler()
+    done = {}
+    lock = threading.Lock()
+    release_b = threading.Event()
+
+    def job(owner, i, dur, gated):
+        def run():
+            if gated:
+                release_b.wait(20)
+            time.sleep(dur)
+            with lock:
+                done[(owner, i)] = done.get((owner, i), 0) + 1
+            return i
+        return run
+
+    na, nb = r.randrange(1, 9), r.randrange(1, 9)
+    order = ['a'] * na + ['b'] * nb
+    if r.chance(0.6):
+        r.shuffle(order)
+    ia = ib = 0
+    b_gated = r.chance(0.5)
+    for who in order:
+        if who == 'a':
+            a.submit_task(job('a', ia, r.pick([0.0, 0.02, 0.06, 0.15]), False))
+            ia += 1
+        else:
+            b.submit_task(job('b', ib, r.pick([0.0, 0.0, 0.01]), b_gated and r.chance(0.5)))
+            ib += 1
+    if not b_gated:
+        time.sleep(r.pick([0.0, 0.005, 0.03]))   # the other handler's tasks may all be finished before the flush
+    t0 = time.monotonic()
+    a.flush()
+    took = time.monotonic() - t0
+    with lock:
+        a_done = sorted(i for (o, i) in done if o == 'a')
+    replay = replay_spec(spec, seed)
+    witness = {'submission_order': ''.join(order), 'other_handler_gated': b_gated, 'flush_seconds': round(took, 3)}
+    if a_done != list(range(na)):
+        out.violation('flush:returned-early', 'flush() of one task handler returned while its tasks %s were unfinished '
+                                              '(a second task handler is active in the process)' % (
+                                                  sorted(set(range(na)) - set(a_done)),), witness, replay)
+    elif took > 5:
+        out.violation('flush:waited-for-foreign-task', 'flush() took %.1f s: it waited for another handler\'s task' % took,
+                      witness, replay)
+    release_b.set()
+    b.flush()
+    with lock:
+        b_done = sorted(i for (o, i) in done if o == 'b')
+        twice = [k for k, v in done.items() if v != 1]
+    if b_done != list(range(nb)):
+        out.violation('flush:returned-early', 'flush() of the second task handler left its tasks %s unfinished' % (
+            sorted(set(range(nb)) - set(b_done)),), witness, replay)
+    if twice:
+        out.violation('delivery:ran-twice', 'tasks %s ran more than once' % (twice[:4],), witness, replay)
+    _close(a)
+    _close(b)
+    out.count('twin_handler_flushes', 2)
+    out.count('tasks_tracked', na + nb)
+    out.case({'twin': ''.join(order), 'g': b_gated, 'seed': str(seed)}, nontrivial=True,
+             sample={'submission_order': ''.join(order), 'flush_seconds': round(took, 3)})
+
+
+def case_backlog(seed, out, spec):
+    """More queued work than ten seconds in total, but no single task anywhere near that: flush() still drains it."""
+    from deep.task import TaskHandler
+    r = Rng('c09b', seed)
+    h = TaskHandler()
+    n, dur = r.pick([(7, 3.4), (8, 2.9), (9, 2.6)])
+    done = []
+
+    def job(i):
+        def run():
+            time.sleep(dur)
+            done.append(i)
+        return run
+
+    for i in range(n):
+        h.submit_task(job(i))
+    t0 = time.monotonic()
+    h.flush()
+    took = time.monotonic() - t0
+    left = sorted(set(range(n)) - set(done))
+    witness = {'tasks': n, 'seconds_each': dur, 'workers': 2, 'flush_seconds': round(took, 2)}
+    if left:
+        out.violation('flush:returned-early', 'flush() returned after %.1f s with tasks %s of a %d x %.1f s backlog '
+                                              'unfinished (no task takes longer than flush\'s per-task wait)' % (
+                                                  took, left, n, dur), witness, replay_spec(spec, seed))
+    _close(h)
+    out.count('backlog_flushes')
+    out.count('tasks_tracked', n)
+    out.case({'backlog': n, 'dur': dur}, nontrivial=True, sample=witness)
+
+
 def _close(handler):
     try:
         handler._pool.shutdown(wait=False)
@@ -354,5 +454,9 @@ def run_shard(spec, out):
     for seed in spec_seeds(spec):
         if spec['kind'] == 'tasks':
             case_tasks(seed, out, spec)
+        elif spec['kind'] == 'twin':
+            case_twin(seed, out, spec)
+        elif spec['kind'] == 'backlog':
+            case_backlog(seed, out, spec)
         else:
             case_push(seed, out, spec)
